@@ -90,4 +90,25 @@ theorem sound_from (X : Extra) : ∀ (ops : List Op) (s : S) (ms : MState), EndL
 theorem sound (X : Extra) (ops : List Op) (hend : EndLast ops) : acceptsRun {} (answered {} ops) = true :=
   sound_from X ops {} {} hend heapRel_init regRel_init X.init
 
+/-- cases without `events_run` and `end`: the heap and registry pieces alone suffice -/
+theorem sound_norun_from : ∀ (ops : List Op) (s : S) (ms : MState), (∀ op ∈ ops, op ≠ .run ∧ op ≠ .end_) →
+    HeapRel s ms → RegRel s ms → acceptsRun ms (answered s ops) = true
+  | [], _, _, _, _, _ => rfl
+  | op :: rest, s, ms, hops, hh, hr => by
+    have hop := hops op List.mem_cons_self
+    have hH := heap_step s ms op hop.2 hh
+    have hR := reg_step s ms op ⟨hop.2, hop.1⟩ hr
+    have hacc : (monStep ms op (ansOf s op)).2 = none := by
+      rcases isReg_or_heap op hop.2 hop.1 with h | h
+      · exact hR.1 h
+      · exact hH.1 h
+    have ih := sound_norun_from rest (stepOp s op).1 (monStep ms op (ansOf s op)).1
+      (fun o ho => hops o (List.mem_cons_of_mem _ ho)) hH.2 hR.2
+    simp only [answered, acceptsRun]
+    rcases hm : monStep ms op (ansOf s op) with ⟨ms', v⟩
+    rw [hm] at hacc ih
+    simp only at hacc ih
+    subst hacc
+    exact ih
+
 end Percival.Proofs.AfMonSound
